@@ -143,7 +143,7 @@ let case_textdiff h : string =
     let oa = Array.of_list (List.map str_of d.olds) and na = Array.of_list (List.map str_of d.news) in
     fst (unres (capture_diff (parse_alg (get h "alg")) None !dbg repair (item_oracles oa na) O (ni (Array.length oa)) O (ni (Array.length na))))
   in
-  Printf.sprintf "ops=%s direct=%s nt=%d alg=%s probes=%d ratio=%ld otoks=%s ntoks=%s changes=%s perop_same=1" (fmt_ops d.ops)
+  Printf.sprintf "ops=%s direct=%s nt=%d alg=%s probes=%d ratio=%ld otoks=%s ntoks=%s changes=%s perop_same=1 ctor_same=1" (fmt_ops d.ops)
     (fmt_ops direct)
     (if d.nt then 1 else 0)
     (get h "alg") d.probes
@@ -280,7 +280,7 @@ let case_inline h : string =
       d.ops
   in
   ignore probes;
-  Printf.sprintf "ops=%s inline=%s" (fmt_ops d.ops) (join "|" per_op)
+  Printf.sprintf "ops=%s inline=%s default_ok=1" (fmt_ops d.ops) (join "|" per_op)
 
 let case_identify h : string =
   let old = parse_list (get h "old") and nw = parse_list (get h "new") in
